@@ -7,7 +7,10 @@ package main
 // Case layout (first element = kind):
 //   (0 s1 s2 out1 out2 inst1 inst2)            dates, a pair of timestamp texts
 //   (1 nu de conf N seed stream pub hookRatios hookSum again)   bootstrap
-//   (2 results wf runs)                        series: one result set, many orders
+//   (2 results wf runs conf N refs)            series: one result set, many orders;
+//        wf = (a b c d a'), run = (how order out sums), sums = (0 ((summary ...) ...)) | (2),
+//        refs = (refs-replace refs-combine), refs-x = ((seed stream alone) per cell) per series
+//   (3 conf N cells)                           several cells, one AddSummaries call
 import (
 	"fmt"
 	"math"
@@ -28,8 +31,8 @@ func init() { gens["C18"] = genC18 }
 
 type c18Civil struct {
 	Y, Mo, D, H, Mi, S int
-	Ns                 int
-	Off                int // minutes east
+	Ns                int
+	Off               int // minutes east
 }
 
 func c18Days(y, m int) int {
@@ -382,8 +385,43 @@ func c18Observe(css []*benchseries.ComparisonSeries) hx.Sx {
 	return hx.List(out)
 }
 
-// runs the real builder over results in the given order
-func c18Run(results []c18Result, order []int, how int) (outcome hx.Sx, kind string) {
+// samples of one observed cell (raw order)
+type c18CellObs struct{ Nu, De []float64 }
+
+func c18Summ(s *benchseries.ComparisonSummary) hx.Sx {
+	if !s.Defined() {
+		return hx.L(hx.I(1))
+	}
+	return hx.L(hx.I(0), hx.F64(s.Center), hx.F64(s.Low), hx.F64(s.High))
+}
+
+// summaries of every cell of every series (AddSummaries), in the order of c18Observe's cells
+func c18Summaries(css []*benchseries.ComparisonSeries, conf float64, n int) (out hx.Sx) {
+	defer func() {
+		if e := recover(); e != nil {
+			out = hx.L(hx.I(2))
+		}
+	}()
+	var all []hx.Sx
+	for _, cs := range css {
+		cs.AddSummaries(conf, n)
+		var row []hx.Sx
+		for bi, b := range cs.Benchmarks {
+			for si, s := range cs.Series {
+				if _, ok := cs.ComparisonAt(b, s); ok {
+					row = append(row, c18Summ(cs.Summaries[si][bi]))
+				}
+			}
+		}
+		all = append(all, hx.List(row))
+	}
+	return hx.L(hx.I(0), hx.List(all))
+}
+
+// runs the real builder over results in the given order; the comparison series
+// are observed first (raw sample order), then summarised
+func c18Run(results []c18Result, order []int, how int, conf float64, n int) (outcome hx.Sx, kind string, sums hx.Sx, cells [][]c18CellObs) {
+	sums = hx.L(hx.I(0), hx.L())
 	defer func() {
 		if e := recover(); e != nil {
 			outcome, kind = hx.L(hx.I(2)), "panic"
@@ -398,9 +436,29 @@ func c18Run(results []c18Result, order []int, how int) (outcome hx.Sx, kind stri
 	}
 	css, err := b.AllComparisonSeries(nil, how)
 	if err != nil {
-		return hx.L(hx.I(1)), "error"
+		return hx.L(hx.I(1)), "error", sums, nil
 	}
-	return hx.L(hx.I(0), c18Observe(css)), "ok"
+	outcome, kind = hx.L(hx.I(0), c18Observe(css)), "ok"
+	for _, cs := range css {
+		var row []c18CellObs
+		for _, bn := range cs.Benchmarks {
+			for _, s := range cs.Series {
+				if c, ok := cs.ComparisonAt(bn, s); ok {
+					var o c18CellObs
+					if c.Numerator != nil {
+						o.Nu = append([]float64(nil), c.Numerator.Values...)
+					}
+					if c.Denominator != nil {
+						o.De = append([]float64(nil), c.Denominator.Values...)
+					}
+					row = append(row, o)
+				}
+			}
+		}
+		cells = append(cells, row)
+	}
+	sums = c18Summaries(css, conf, n)
+	return
 }
 
 // ---------------------------------------------------------------- series
@@ -606,7 +664,7 @@ func c18GenWorld(r *hx.Rng) c18World {
 
 type c18Flat struct {
 	Unit, Table, Bench, Exp, Ser, Role, NH, DH string
-	Val                                        float64
+	Val                                       float64
 }
 
 func c18Flatten(results []c18Result) (flat []c18Flat, start []int) {
@@ -620,8 +678,8 @@ func c18Flatten(results []c18Result) (flat []c18Flat, start []int) {
 }
 
 // the well-formedness clauses (input predicates; the Coq side recomputes them)
-func c18WF(flat []c18Flat) (a, b, c, d bool) {
-	a, b, c, d = true, true, true, true
+func c18WF(flat []c18Flat) (a, b, c, d, an bool) {
+	a, b, c, d, an = true, true, true, true, true
 	norm := func(s string) (string, bool) {
 		o, err := benchseries.NormalizeDateString(s)
 		return o, err == nil
@@ -639,6 +697,12 @@ func c18WF(flat []c18Flat) (a, b, c, d bool) {
 			if x.Role == "num" && y.Role == "num" {
 				if x.NH == y.NH && x.Ser != y.Ser {
 					a = false
+					// a': the two spellings denote one instant
+					sx, ok1 := norm(x.Ser)
+					sy, ok2 := norm(y.Ser)
+					if !(ok1 && ok2 && sx == sy) {
+						an = false
+					}
 				}
 				if x.Unit == y.Unit && x.Table == y.Table {
 					sx, ok1 := norm(x.Ser)
@@ -675,6 +739,92 @@ func c18RoleCode(s string) int {
 	return 2
 }
 
+// all permutations of 0..n-1 (n small)
+func c18Perms(n int) [][]int {
+	var out [][]int
+	var rec func(cur []int, used []bool)
+	rec = func(cur []int, used []bool) {
+		if len(cur) == n {
+			out = append(out, append([]int(nil), cur...))
+			return
+		}
+		for i := 0; i < n; i++ {
+			if !used[i] {
+				used[i] = true
+				rec(append(cur, i), used)
+				used[i] = false
+			}
+		}
+	}
+	rec(nil, make([]bool, n))
+	return out
+}
+
+// input predicate: under DUPE_COMBINE some series point is measured by >= 2
+// experiments whose values interleave (the concatenation of the per-experiment
+// sorted samples, in either order of two experiments, is not sorted)
+func c18Interleaved(flat []c18Flat) bool {
+	type pk struct{ unit, table, bench, ser string }
+	norm := func(s string) string {
+		o, err := benchseries.NormalizeDateString(s)
+		if err != nil {
+			return "!" + s
+		}
+		return o
+	}
+	nums := map[pk]map[string][]float64{}
+	var keys []pk
+	for _, f := range flat {
+		if f.Role != "num" {
+			continue
+		}
+		k := pk{f.Unit, f.Table, f.Bench, norm(f.Ser)}
+		if nums[k] == nil {
+			nums[k] = map[string][]float64{}
+			keys = append(keys, k)
+		}
+		nums[k][f.Exp] = append(nums[k][f.Exp], f.Val)
+	}
+	overlap := func(a, b []float64) bool {
+		mina, maxa := a[0], a[0]
+		for _, v := range a {
+			mina, maxa = math.Min(mina, v), math.Max(maxa, v)
+		}
+		minb, maxb := b[0], b[0]
+		for _, v := range b {
+			minb, maxb = math.Min(minb, v), math.Max(maxb, v)
+		}
+		return maxa > minb && maxb > mina
+	}
+	for _, k := range keys {
+		var exps []string
+		for e := range nums[k] {
+			exps = append(exps, e)
+		}
+		sort.Strings(exps)
+		for i := range exps {
+			for j := i + 1; j < len(exps); j++ {
+				if overlap(nums[k][exps[i]], nums[k][exps[j]]) {
+					return true
+				}
+			}
+		}
+	}
+	return false
+}
+
+// input predicate: two results added one after the other carry the same table
+// keys and the same number (>= 2) of values but different unit lists
+func c18AdjacentUnitLists(results []c18Result, order []int) bool {
+	for k := 0; k+1 < len(order); k++ {
+		x, y := results[order[k]], results[order[k+1]]
+		if x.Table == y.Table && len(x.Units) >= 2 && len(x.Units) == len(y.Units) && strings.Join(x.Units, " ") != strings.Join(y.Units, " ") {
+			return true
+		}
+	}
+	return false
+}
+
 func c18SeriesCase(o *hx.Out, r *hx.Rng, w c18World, norders int) {
 	flat, start := c18Flatten(w.Results)
 	var rs []hx.Sx
@@ -682,9 +832,9 @@ func c18SeriesCase(o *hx.Out, r *hx.Rng, w c18World, norders int) {
 		rs = append(rs, hx.L(hx.S(f.Unit), hx.S(f.Table), hx.S(f.Bench), hx.S(f.Exp), hx.S(f.Ser), hx.I(c18RoleCode(f.Role)),
 			hx.S(f.NH), hx.S(f.DH), hx.F64(f.Val)))
 	}
-	wa, wb, wc, wd := c18WF(flat)
+	wa, wb, wc, wd, wan := c18WF(flat)
 	var tags []string
-	if !wa {
+	if !wan {
 		tags = append(tags, "c18_illformed_hash_two_stamps")
 	}
 	if !wb {
@@ -696,12 +846,16 @@ func c18SeriesCase(o *hx.Out, r *hx.Rng, w c18World, norders int) {
 	if !wd {
 		tags = append(tags, "c18_illformed_equal_dates")
 	}
-	wf := wa && wb && wc && wd
+	wf := wan && wb && wc && wd
+	// summaries: a small resample count keeps the recorded Intn streams short
+	conf := []float64{0.5, 0.9, 0.95, 0.99}[r.Intn(4)]
+	bootN := []int{1, 2, 3, 5, 8}[r.Intn(5)]
 	var runs []hx.Sx
 	n := len(w.Results)
-	kinds := map[string]bool{}
-	distinct := map[string]bool{}
-	for how := 0; how < 2; how++ {
+	var orders [][]int
+	if norders < 0 { // every add order
+		orders = c18Perms(n)
+	} else {
 		for k := 0; k < norders; k++ {
 			order := make([]int, n)
 			for i := range order {
@@ -717,24 +871,77 @@ func c18SeriesCase(o *hx.Out, r *hx.Rng, w c18World, norders int) {
 					order[i], order[j] = order[j], order[i]
 				}
 			}
-			out, kind := c18Run(w.Results, order, how)
+			orders = append(orders, order)
+		}
+	}
+	kinds := map[string]bool{}
+	distinct := map[string]bool{}
+	sumsDistinct := [2]map[string]bool{{}, {}}
+	var first [2][][]c18CellObs
+	adjacent := 0
+	for _, order := range orders {
+		if c18AdjacentUnitLists(w.Results, order) {
+			adjacent++
+		}
+	}
+	for how := 0; how < 2; how++ {
+		for _, order := range orders {
+			out, kind, sums, cells := c18Run(w.Results, order, how, conf, bootN)
 			kinds[kind] = true
 			distinct[fmt.Sprintf("%d:%s", how, out.Text())] = true
+			sumsDistinct[how][sums.Text()] = true
+			if kind == "ok" && first[how] == nil {
+				first[how] = cells
+				if first[how] == nil {
+					first[how] = [][]c18CellObs{}
+				}
+			}
 			var fo []hx.Sx
 			for _, i := range order {
 				for j := range w.Results[i].Units {
 					fo = append(fo, hx.I(start[i]+j))
 				}
 			}
-			runs = append(runs, hx.L(hx.I(how), hx.List(fo), out))
+			runs = append(runs, hx.L(hx.I(how), hx.List(fo), out, sums))
 		}
+	}
+	// per policy and cell: the same multiset of measurements summarised as ONE
+	// experiment through the public API, and the math/rand stream of its seed
+	var refs [2]hx.Sx
+	for how := 0; how < 2; how++ {
+		var tabs []hx.Sx
+		for _, row := range first[how] {
+			var cs []hx.Sx
+			for _, c := range row {
+				nu := append([]float64(nil), c.Nu...)
+				de := append([]float64(nil), c.De...)
+				sort.Float64s(nu)
+				sort.Float64s(de)
+				if len(de) == 0 {
+					cs = append(cs, hx.L(hx.Z(0), hx.L(), hx.L(hx.I(1))))
+					continue
+				}
+				seed, stream := c18Stream(nu, de, bootN)
+				alone, _ := c18PublicSummary(c18Boot{Nu: nu, De: de, Conf: conf, N: bootN})
+				cs = append(cs, hx.L(hx.Z(seed), stream, alone))
+			}
+			tabs = append(tabs, hx.List(cs))
+		}
+		refs[how] = hx.List(tabs)
 	}
 	for k := range kinds {
 		o.Count("series-outcome:" + k)
 	}
 	o.Count(fmt.Sprintf("series-wf:%v", wf))
+	if wf && !wa {
+		o.Count("series-wf-hash-with-several-spellings-of-one-instant")
+	}
 	if w.Mut != "" {
-		o.Count("series-mutation:" + w.Mut[:1])
+		if i := strings.IndexByte(w.Mut, ':'); i > 0 {
+			o.Count("series-mutation:" + w.Mut[:i])
+		} else {
+			o.Count("series-class:" + w.Mut)
+		}
 	}
 	if !wf && len(distinct) > 2 {
 		o.Count("series-illformed-observed-order-dependent")
@@ -742,9 +949,20 @@ func c18SeriesCase(o *hx.Out, r *hx.Rng, w c18World, norders int) {
 	if wf && len(distinct) > 2 {
 		o.Count("series-wf-raw-outputs-differ(unsorted denominator-less cells)")
 	}
+	if wf && c18Interleaved(flat) {
+		o.Count("series-wf-combine-point-with-interleaved-experiments")
+	}
+	if wf && adjacent > 0 {
+		o.Count("series-wf-adjacent-multi-value-results-different-unit-lists")
+	}
+	if wf && (len(sumsDistinct[0]) > 1 || len(sumsDistinct[1]) > 1) {
+		o.Count("series-wf-summaries-differ-across-orders")
+	}
+	o.Count(fmt.Sprintf("series-orders:%d", min(len(orders)/10*10, 100)))
 	o.Count(fmt.Sprintf("series-results:%d", min(len(flat)/10*10, 100)))
-	o.Add(hx.L(hx.I(2), hx.List(rs), hx.L(hx.Bool(wa), hx.Bool(wb), hx.Bool(wc), hx.Bool(wd)), hx.List(runs)),
-		map[string]interface{}{"kind": "series", "world": w, "orders": norders}, fmt.Sprintf("s:%d", o.Len()), len(flat) > 3, tags...)
+	o.Add(hx.L(hx.I(2), hx.List(rs), hx.L(hx.Bool(wa), hx.Bool(wb), hx.Bool(wc), hx.Bool(wd), hx.Bool(wan)), hx.List(runs),
+		hx.F64(conf), hx.I(bootN), hx.L(refs[0], refs[1])),
+		map[string]interface{}{"kind": "series", "world": w, "orders": norders, "confidence": conf, "n": bootN}, fmt.Sprintf("s:%d", o.Len()), len(flat) > 3, tags...)
 }
 
 // ---------------------------------------------------------------- bootstrap
@@ -1153,10 +1371,265 @@ func c18GenSharedBaseline(r *hx.Rng) c18World {
 	return w
 }
 
+// ---------------------------------------------------------------- spellings of one instant (C18-c)
+
+// the texts of instant t (UTC, nanoseconds a multiple of 1000) accepted by
+// NormalizeDateString: the compact layout and "Z" forms, and the RFC 3339
+// layout with an explicit +00:00 offset and a non-canonical fraction
+// (trailing zeros, ',' separator, more than nine digits)
+func c18Spellings(t time.Time) (canon []string, odd []string) {
+	t = t.UTC()
+	base := t.Format("2006-01-02T15:04:05")
+	ns := t.Nanosecond()
+	if ns == 0 {
+		canon = []string{t.Format("20060102T150405"), base + "Z", base + "+00:00"}
+		odd = []string{base + ".000+00:00", base + ".0+00:00", base + ",0+00:00", base + ".000000+00:00", base + ".000000000+00:00",
+			base + ",000+00:00", base + ".0000000000+00:00", base + ".000Z", base + "-00:00", base + ".000-00:00"}
+		return
+	}
+	f := strings.TrimRight(fmt.Sprintf("%09d", ns), "0")
+	canon = []string{base + "." + f + "Z", base + "." + f + "+00:00"}
+	odd = []string{base + "." + f + "0+00:00", base + "." + f + "000+00:00", base + "," + f + "+00:00", base + "," + f + "00+00:00",
+		base + "." + fmt.Sprintf("%09d", ns) + "+00:00", base + "." + fmt.Sprintf("%09d", ns) + "0+00:00", base + "," + f + "Z",
+		base + "." + f + "00Z", base + "." + f + "000-00:00"}
+	if len(f) < 6 {
+		odd = append(odd, base+"."+fmt.Sprintf("%09d", ns)[:6]+"+00:00")
+	}
+	// the same instant at another offset, fraction with trailing zeros
+	u := t.In(time.FixedZone("", 5*3600+1800))
+	odd = append(odd, u.Format("2006-01-02T15:04:05")+"."+f+"00+05:30")
+	return
+}
+
+func c18SpellInstant(r *hx.Rng) time.Time {
+	c := c18RandCivil(r)
+	if c.Y < 1 {
+		c.Y = 1
+	}
+	ns := 0
+	switch r.Intn(6) {
+	case 0, 1:
+		ns = 500000000
+	case 2:
+		ns = []int{250000000, 120000000, 100000000, 999999000, 1000, 50000000, 123456000}[r.Intn(7)]
+	}
+	return time.Date(c.Y, time.Month(c.Mo), c.D, c.H, c.Mi, c.S, ns, time.UTC)
+}
+
+func c18PickSpelling(r *hx.Rng, t time.Time, oddP float64) string {
+	canon, odd := c18Spellings(t)
+	if r.Chance(oddP) {
+		return odd[r.Intn(len(odd))]
+	}
+	return canon[r.Intn(len(canon))]
+}
+
+// pairs: an odd +00:00 spelling next to a compact / Z / other spelling of the
+// same instant, and next to spellings of neighbouring instants
+func c18GenDateSpellings(o *hx.Out, r *hx.Rng, n int) {
+	for k := 0; k < n; k++ {
+		t := c18SpellInstant(r)
+		_, odd := c18Spellings(t)
+		s1 := odd[r.Intn(len(odd))]
+		switch r.Intn(3) {
+		case 0, 1:
+			s2 := c18PickSpelling(r, t, 0.3)
+			if r.Bool() {
+				s1, s2 = s2, s1
+			}
+			c18DatePair(o, s1, s2, "spelling-same-instant")
+		default:
+			d := []time.Duration{time.Microsecond, -time.Microsecond, 500 * time.Millisecond, -500 * time.Millisecond, time.Second, -time.Second,
+				time.Minute, 24 * time.Hour, 100 * time.Millisecond, -100 * time.Millisecond}[r.Intn(10)]
+			t2 := t.Add(d)
+			if t2.Year() < 1 || t2.Year() > 9999 {
+				t2 = t
+			}
+			s2 := c18PickSpelling(r, t2, 0.5)
+			if r.Bool() {
+				s1, s2 = s2, s1
+			}
+			c18DatePair(o, s1, s2, "spelling-neighbour")
+		}
+	}
+}
+
+// a well-formed world in which every result spells the series stamp of its
+// hash in its own way (one instant per hash); instants may differ only in the
+// fraction of a second.  Each experiment keeps ONE spelling (the experiment
+// text is a map key of the builder).
+func c18GenSpelledWorld(r *hx.Rng) c18World {
+	var w c18World
+	w.Mut = "spellings-of-one-instant"
+	t0 := time.Date(2022, 1, 1, 21, 32, 12, 0, time.UTC)
+	nH := 2 + r.Intn(2)
+	inst := make([]time.Time, nH)
+	for i := range inst {
+		switch r.Intn(3) {
+		case 0: // neighbours within one second
+			inst[i] = t0.Add(time.Duration(i) * 250 * time.Millisecond)
+		case 1:
+			inst[i] = t0.AddDate(0, 0, i).Add(time.Duration(r.Intn(2)) * 500 * time.Millisecond)
+		default:
+			inst[i] = t0.AddDate(0, 0, i)
+		}
+	}
+	// distinct instants
+	for i := range inst {
+		for j := 0; j < i; j++ {
+			if inst[i].Equal(inst[j]) {
+				inst[i] = inst[i].Add(time.Duration(i) * time.Hour)
+			}
+		}
+	}
+	nE := 1 + r.Intn(3)
+	exps := make([]string, nE)
+	for i := range exps {
+		exps[i] = c18PickSpelling(r, t0.AddDate(0, 1, i).Add(time.Duration(r.Intn(2))*500*time.Millisecond), 0.6)
+	}
+	table := []string{"", "linux"}[r.Intn(2)]
+	units := c18UnitSets[r.Intn(len(c18UnitSets))]
+	nB := 1 + r.Intn(2)
+	for ei := 0; ei < nE; ei++ {
+		for bi := 0; bi < nB; bi++ {
+			mk := func(role string, h int) {
+				vals := make([]float64, len(units))
+				for i := range vals {
+					vals[i] = c18Val(r)
+				}
+				w.Results = append(w.Results, c18Result{Table: table, Bench: c18Benches[bi], Exp: exps[ei], Ser: c18PickSpelling(r, inst[h], 0.6),
+					Role: role, NH: fmt.Sprintf("h%d", h), DH: "d0", Units: units, Vals: vals})
+			}
+			for k := 1 + r.Intn(2); k > 0; k-- {
+				mk("den", 0)
+			}
+			for h := 0; h < nH; h++ {
+				if r.Chance(0.8) {
+					for k := 1 + r.Intn(3); k > 0; k-- {
+						mk("num", h)
+					}
+				}
+			}
+		}
+	}
+	return w
+}
+
+// ---------------------------------------------------------------- interleaving experiments (C18-a)
+
+// every series point is measured by 2-3 experiments whose numerator (and
+// denominator) values interleave: consecutive values of one increasing sequence
+// are dealt to the experiments in turn
+func c18GenInterleave(r *hx.Rng) c18World {
+	var w c18World
+	w.Mut = "interleaved-experiments"
+	t0 := time.Date(2022, 1, 1, 21, 32, 12, 0, time.UTC)
+	nH := 1 + r.Intn(2)
+	nE := 2 + r.Intn(2)
+	table := []string{"", "linux"}[r.Intn(2)]
+	units := c18UnitSets[r.Intn(len(c18UnitSets))]
+	sers := make([]string, nH)
+	for i := range sers {
+		sers[i] = c18Stamp(r, t0.AddDate(0, 0, i), r.Intn(4))
+	}
+	exps := make([]string, nE)
+	for i := range exps {
+		exps[i] = c18Stamp(r, t0.AddDate(0, 1, i), r.Intn(4))
+	}
+	nB := 1 + r.Intn(2)
+	for bi := 0; bi < nB; bi++ {
+		// deal an increasing sequence to (experiment, role/hash) groups
+		deal := func(role string, h int) {
+			per := 1 + r.Intn(3) // values per experiment
+			v := make([]float64, len(units))
+			for i := range v {
+				v[i] = c18Val(r)
+			}
+			eo := r.Intn(nE)
+			for k := 0; k < per*nE; k++ {
+				e := (k + eo) % nE
+				vals := make([]float64, len(units))
+				for i := range vals {
+					v[i] += float64(1+r.Intn(40)) / 8
+					vals[i] = v[i]
+				}
+				w.Results = append(w.Results, c18Result{Table: table, Bench: c18Benches[bi], Exp: exps[e], Ser: sers[h],
+					Role: role, NH: fmt.Sprintf("h%d", h), DH: "d0", Units: units, Vals: vals})
+			}
+		}
+		deal("den", 0)
+		for h := 0; h < nH; h++ {
+			deal("num", h)
+		}
+	}
+	return w
+}
+
+// ---------------------------------------------------------------- multi-value results, overlapping unit lists (C18-b)
+
+var c18UnitLists2 = [][]string{{"ns/op", "B/op"}, {"ns/op", "MB/s"}, {"B/op", "ns/op"}, {"MB/s", "B/op"}, {"B/op", "allocs/op"}, {"ns/op", "allocs/op"}}
+var c18UnitLists3 = [][]string{{"ns/op", "B/op", "allocs/op"}, {"ns/op", "MB/s", "allocs/op"}, {"ns/op", "B/op", "MB/s"}, {"B/op", "ns/op", "allocs/op"}, {"ns/op", "MB/s", "B/op"}}
+
+// every result carries the same number (2 or 3) of values and the same table
+// keys, unit lists overlap partially; in each trial the denominators use the
+// unit lists of the numerators (so every unit that has a numerator has its
+// baseline and the set is well-formed)
+func c18GenMultiUnit(r *hx.Rng, tiny bool) c18World {
+	var w c18World
+	w.Mut = "multi-value-unit-lists"
+	pool := c18UnitLists2
+	if r.Chance(0.3) {
+		pool = c18UnitLists3
+	}
+	t0 := time.Date(2022, 1, 1, 21, 32, 12, 0, time.UTC)
+	nH, nE, nB := 1+r.Intn(2), 1+r.Intn(2), 1+r.Intn(2)
+	if tiny {
+		w.Mut = "multi-value-unit-lists-all-orders"
+		nH, nE, nB = 1, 1, 1
+	}
+	table := []string{"", "linux"}[r.Intn(2)]
+	sers := make([]string, nH)
+	for i := range sers {
+		sers[i] = c18Stamp(r, t0.AddDate(0, 0, i), r.Intn(4))
+	}
+	for ei := 0; ei < nE; ei++ {
+		exp := c18Stamp(r, t0.AddDate(0, 1, ei), r.Intn(4))
+		for bi := 0; bi < nB; bi++ {
+			mk := func(role string, h int, units []string) {
+				vals := make([]float64, len(units))
+				for i := range vals {
+					vals[i] = c18Val(r)
+				}
+				w.Results = append(w.Results, c18Result{Table: table, Bench: c18Benches[bi], Exp: exp, Ser: sers[h],
+					Role: role, NH: fmt.Sprintf("h%d", h), DH: "d0", Units: units, Vals: vals})
+			}
+			// two different unit lists per trial, adjacent in the generated order
+			i := r.Intn(len(pool))
+			j := (i + 1 + r.Intn(len(pool)-1)) % len(pool)
+			lists := [][]string{pool[i], pool[j]}
+			if !tiny && r.Chance(0.3) {
+				lists = append(lists, pool[r.Intn(len(pool))])
+			}
+			for _, l := range lists {
+				mk("den", 0, l)
+			}
+			for h := 0; h < nH; h++ {
+				for _, l := range lists {
+					mk("num", h, l)
+				}
+				if !tiny && r.Chance(0.3) {
+					mk("num", h, lists[r.Intn(len(lists))])
+				}
+			}
+		}
+	}
+	return w
+}
+
 // ---------------------------------------------------------------- entry
 
 func genC18(o *hx.Out, r *hx.Rng, tier string, replay string) error {
-	o.Rule = "five streams. multi-cell: a ComparisonSeries with 2-9 cells (always one pair with swapped numerator/denominator samples, identical cells, cells sharing only one sample, two series points sharing one baseline) summarised by ONE AddSummaries call, each cell compared with the same samples summarised alone. shared-baseline: DUPE_COMBINE aliasing class (one trial, several hashes, one baseline, each point re-measured by a later experiment). dates: pairs of timestamp texts in both accepted layouts (offsets, fractions incl. >9 digits and ',' separator, calendar edge days, years 0..9999), pairs denoting one instant, neighbouring instants, hostile mutations. bootstrap: samples (constant, near-constant, few-valued, positive, mixed-sign, zero denominators) x N in {1,2,3,50,500,1000,small random} x confidence in {0.5,0.9,0.95,0.99,edge,random}, through Builder.Add/AllComparisonSeries/AddSummaries and the tagged hooks, math/rand Intn stream recorded for replay. series: result sets over <=2 units x <=2 tables x <=3 benchmarks x <=4 experiments x <=4 hashes/series stamps (stamps in mixed layouts), well-formed worlds plus mutations a-g leaving the well-formed domain, each added in N random orders under DUPE_REPLACE and DUPE_COMBINE. non-trivial = more than 3 measurements / a date accepted / a sample of more than one value"
+	o.Rule = "streams. multi-cell: a ComparisonSeries with 2-9 cells (always one pair with swapped numerator/denominator samples, identical cells, cells sharing only one sample, two series points sharing one baseline) summarised by ONE AddSummaries call, each cell compared with the same samples summarised alone. shared-baseline: DUPE_COMBINE aliasing class (one trial, several hashes, one baseline, each point re-measured by a later experiment). dates: pairs of timestamp texts in both accepted layouts (offsets, fractions incl. >9 digits and ',' separator, calendar edge days, years 0..9999), pairs denoting one instant, neighbouring instants, hostile mutations. bootstrap: samples (constant, near-constant, few-valued, positive, mixed-sign, zero denominators) x N in {1,2,3,50,500,1000,small random} x confidence in {0.5,0.9,0.95,0.99,edge,random}, through Builder.Add/AllComparisonSeries/AddSummaries and the tagged hooks, math/rand Intn stream recorded for replay. series: result sets over <=2 units x <=2 tables x <=3 benchmarks x <=4 experiments x <=4 hashes/series stamps (stamps in mixed layouts), well-formed worlds plus mutations a-g leaving the well-formed domain, each added in N random orders under DUPE_REPLACE and DUPE_COMBINE; AddSummaries (confidence in {0.5,0.9,0.95,0.99}, N in {1,2,3,5,8}) on the series of every run, each cell compared with the same multiset summarised as one experiment, Intn stream recorded per cell. interleaved-experiments: every series point measured by 2-3 experiments whose numerator and denominator values interleave (COMBINE must return the sorted multiset; summaries equal across add orders). multi-value-unit-lists: results carrying 2-3 values, same table keys, partially overlapping unit lists (ns/op B/op | ns/op MB/s | B/op ns/op ...) adjacent in the add order, 4-result sets in ALL 24 orders. spellings-of-one-instant: every result spells the series stamp of its hash in its own way (compact, Z, +00:00 / -00:00 with fractions .000 .500000 ,5 and >9 digits, another offset), instants differing only in the fraction; date pairs of such spellings (same instant, neighbours). non-trivial = more than 3 measurements / a date accepted / a sample of more than one value"
 	// the code under test reports hash-pair mismatches on os.Stderr directly
 	if devnull, err := os.OpenFile(os.DevNull, os.O_WRONLY, 0); err == nil {
 		saved := os.Stderr
@@ -1165,11 +1638,14 @@ func genC18(o *hx.Out, r *hx.Rng, tier string, replay string) error {
 	}
 	nd, nb, nbig, nsr, norders := 1500, 400, 12, 90, 20
 	nmulti, nshared := 150, 25
+	nspell, nsw, nil_, nmu, nmutiny := 400, 25, 25, 20, 12
 	if tier == "thorough" {
 		nd, nb, nbig, nsr, norders = 40000, 6000, 150, 1500, 20
 		nmulti, nshared = 3000, 400
+		nspell, nsw, nil_, nmu, nmutiny = 10000, 400, 400, 300, 150
 	}
 	c18GenDates(o, r.Split(), nd)
+	c18GenDateSpellings(o, r.Split(), nspell)
 	rb := r.Split()
 	for i := 0; i < nb; i++ {
 		c18BootCase(o, c18GenBoot(rb, false))
@@ -1191,6 +1667,19 @@ func genC18(o *hx.Out, r *hx.Rng, tier string, replay string) error {
 	}
 	for i := 0; i < nshared; i++ {
 		c18SeriesCase(o, rs, c18GenSharedBaseline(rs), norders)
+	}
+	rg := r.Split()
+	for i := 0; i < nil_; i++ {
+		c18SeriesCase(o, rg, c18GenInterleave(rg), norders)
+	}
+	for i := 0; i < nsw; i++ {
+		c18SeriesCase(o, rg, c18GenSpelledWorld(rg), norders)
+	}
+	for i := 0; i < nmu; i++ {
+		c18SeriesCase(o, rg, c18GenMultiUnit(rg, false), norders)
+	}
+	for i := 0; i < nmutiny; i++ {
+		c18SeriesCase(o, rg, c18GenMultiUnit(rg, true), -1)
 	}
 	// combine with a denominator-less trial (nil dereference before the repair)
 	c18SeriesCase(o, rs, c18World{Results: []c18Result{
